@@ -711,5 +711,107 @@ theorem sched_constLike (D : K) :
   subst h
   exact ⟨rfl, rfl⟩
 
+
+/-- **storage_frame_count** (the property as a user reads it, for the concrete classes): a
+`StorageTracker(interrupts=D)` / `DataTracker` with `D ≥ dt` among arbitrary other trackers, on a
+range of `N` whole steps that is run to its end, holds `⌊T/D⌋ + 1` frames, recorded at its call
+times, each within `dt/2` of `t_start + k*D`. -/
+theorem storage_frame_count (dt tStart tEnd eps : K) (step : S → K → S) (u0 : S)
+    (specs : List (TrackerSpec K S)) (hdt : 0 < dt) (he0 : 0 < eps) (he1 : eps < 1 / 2)
+    (N : Nat) (hN : tEnd - tStart = N * dt) (D : K) (hD : dt ≤ D)
+    (j : Nat) (sp : TrackerSpec K S) (hj : specs[j]? = some sp) (hsched : sp.sched = .const D none)
+    (hkind : sp.kind ≠ .callback) (hro : ∀ n t u, sp.stopAt n t u = none)
+    (h : (runSpec dt tStart tEnd eps step u0 specs).exit.reachedEnd)
+    (guard : ∀ k : Nat, ¬ (tEnd - tStart < k * D ∧ k * D < tEnd - tStart + eps * dt)) :
+    ∃ tr, (runSpec dt tStart tEnd eps step u0 specs).trackers[j]? = some tr ∧
+      tr.times.length = (Int.floor ((tEnd - tStart) / D)).toNat + 1 ∧
+      tr.frames.length = tr.times.length ∧
+      List.Forall₂ (Near dt D tStart) (List.range tr.times.length) tr.times := by
+  set c : Cfg K S (Sched K) :=
+    { dt := dt, tStart := tStart, tEnd := tEnd, eps := eps, step := step, nxt := Sched.next } with hc
+  have hj' : (specs.map (fun s => s.init tStart))[j]? = some (sp.init tStart) := by
+    rw [List.getElem?_map, hj]; rfl
+  have hs0 : (sp.init tStart).sched = Sched.const D tStart ∧ (sp.init tStart).due = some tStart := by
+    unfold TrackerSpec.init
+    rw [hsched]
+    exact ⟨rfl, rfl⟩
+  have h' : (runFuel c u0 (specs.map (fun s => s.init tStart)) (defaultFuel c)).exit.reachedEnd := h
+  show ∃ tr, (runFuel c u0 (specs.map (fun s => s.init tStart)) (defaultFuel c)).trackers[j]? = some tr ∧ _
+  have hcount := frame_count_floor c hdt he0 he1 N hN D hD _ (sched_constLike D) u0
+    (specs.map (fun s => s.init tStart)) j (sp.init tStart) hj' hs0.1 hs0.2 (defaultFuel c) h' guard
+  obtain ⟨m, hnear, _⟩ := served_exactly_once_within_half_step c hdt he0 he1.le D tStart hD _
+    (sched_constLike D) u0 (specs.map (fun s => s.init tStart)) j (sp.init tStart) hj' hs0.1 hs0.2
+    (by show tStart - dt / 2 ≤ tStart; linarith) (defaultFuel c)
+  obtain ⟨tr, h1, h2, h3, _⟩ := recorded_frames_are_calls c u0 (specs.map (fun s => s.init tStart)) j
+    (sp.init tStart) hj' hkind hro (defaultFuel c)
+  have e2 : tr.times = callsOf j (runFuel c u0 (specs.map (fun s => s.init tStart)) (defaultFuel c)).trace := by
+    rw [h2]; rfl
+  have e3 : tr.frames = seenBy j (runFuel c u0 (specs.map (fun s => s.init tStart)) (defaultFuel c)).trace := by
+    rw [h3]; rfl
+  refine ⟨tr, h1, by rw [e2]; exact hcount, ?_, ?_⟩
+  · rw [e2, e3]; unfold callsOf seenBy; simp
+  · have hlen : (callsOf j (runFuel c u0 (specs.map (fun s => s.init tStart)) (defaultFuel c)).trace).length = m := by
+      have := hnear.length_eq; simpa using this.symm
+    rw [e2, hlen]; exact hnear
+
+/-! ### non-vacuity and corner witnesses (concrete runs at `Rat`) -/
+
+/-- dt = 1/4 on [0, 3] (12 steps); tracker 0: storage every 5/8 (= 2.5 dt, rounding ties);
+tracker 1: callback at the fixed times 5/4 and 2 -/
+def exRun (stop0 stop1 : Nat → Option StopReq) : Result Rat Rat (Sched Rat) :=
+  runSpec (1 / 4) 0 3 (1 / 1000000) (fun u t => u + 1 / 4 * t) 0
+    [ { kind := .storage, sched := .const (5 / 8) none, stopAt := fun n _ _ => stop0 n },
+      { kind := .callback, sched := .fixed [5 / 4, 2], stopAt := fun n _ _ => stop1 n } ]
+
+/-- read-only: ⌊3/(5/8)⌋ + 1 = 5 frames, each within dt/2 = 1/8 of k*5/8 (0, 5/8, 5/4, 15/8, 5/2);
+the scheduled time 5/8 is a rounding tie (2.5 steps): round-half-even goes to t = 1/2, where the
+tracker is not yet due (`1/2 > 5/8 - 1/8` is false), so it is served one step later at distance
+exactly dt/2 -/
+example : ((exRun (fun _ => none) (fun _ => none)).trackers.map (fun tr => tr.times)) =
+    [[0, 3 / 4, 5 / 4, 2, 5 / 2], []] ∧ (exRun (fun _ => none) (fun _ => none)).exit = .final ∧
+    (exRun (fun _ => none) (fun _ => none)).trace.map (fun e => (e.1, e.2.1)) =
+      [(0, 0), (0, 3 / 4), (0, 5 / 4), (1, 5 / 4), (0, 2), (1, 2), (0, 5 / 2)] := by decide +kernel
+
+/-- both trackers are due at t = 5/4; the first raises `StopIteration()`, the second
+`FinishedSimulation("done")`: both are served, the last request is reported, the run ends at 5/4
+after 5 steps, both trackers are finalised -/
+example :
+    let R := exRun (fun n => if n = 2 then some (.stopIteration "") else none)
+      (fun n => if n = 0 then some (.finished "done") else none)
+    R.exit = .stopped (.finished "done") ∧ R.exit.reason = "done" ∧ R.exit.successful = true ∧
+      R.tFinal = 5 / 4 ∧ R.steps = 5 ∧
+      R.trace.map (fun e => (e.1, e.2.1)) = [(0, 0), (0, 3 / 4), (0, 5 / 4), (1, 5 / 4)] ∧
+      R.trackers.map (fun tr => tr.finalized) = [1, 1] ∧
+      R.trackers.map (fun tr => tr.times) = [[0, 3 / 4], []] := by decide +kernel
+
+/-- a stop raised by the final handle (tracker 0 is due at t_end = 3 when D = 3/4) -/
+example :
+    let R := runSpec (1 / 4 : Rat) 0 3 (1 / 1000000) (fun u _ => u + 1 / 4) (0 : Rat)
+      [ { kind := .data, sched := .const (3 / 4) none,
+          stopAt := fun n _ _ => if n = 4 then some (.stopIteration "") else none } ]
+    R.exit = .finalStopped (.stopIteration "") ∧ R.exit.reason = "Tracker raised StopIteration" ∧
+      R.exit.successful = false ∧ R.tFinal = 3 ∧ R.steps = 12 ∧
+      R.trackers.map (fun tr => (tr.times, tr.frames)) =
+        [([0, 3 / 4, 3 / 2, 9 / 4, 3], [0, 3 / 4, 3 / 2, 9 / 4])] := by decide +kernel
+
+/-- **corner_scheduled_time_at_t_end_missed**: the guard of the general-range statement is
+needed.  dt = 1, range [0, 1 + 10^-6], interval D = 1 + 10^-6: the scheduled time D = t_end is not
+served, because the loop ends at t_final = 1 = t_end - eps*dt and the final handle tests
+`t > t_next - eps*dt` strictly. -/
+theorem corner_scheduled_time_at_t_end_missed :
+    let R := runSpec (1 : Rat) 0 (1000001 / 1000000) (1 / 1000000) (fun u _ => u + 1) (0 : Rat)
+      [ { kind := .storage, sched := .const (1000001 / 1000000) none, stopAt := fun _ _ _ => none } ]
+    R.exit = .final ∧ R.tFinal = 1 ∧ R.steps = 1 ∧ R.trackers.map (fun tr => tr.times) = [[0]] := by
+  decide +kernel
+
+/-- the extra frame of a range that is not a whole number of steps need not be at the final time:
+dt = 1, range [0, 23/10], D = 6/5: the scheduled time 12/5 > t_end is served at t = 2, the run
+ends at t = 3 -/
+theorem extra_frame_not_at_final_time :
+    let R := runSpec (1 : Rat) 0 (23 / 10) (1 / 1000000) (fun u _ => u + 1) (0 : Rat)
+      [ { kind := .storage, sched := .const (6 / 5) none, stopAt := fun _ _ _ => none } ]
+    R.exit = .final ∧ R.tFinal = 3 ∧ R.trackers.map (fun tr => tr.times) = [[0, 1, 2]] := by
+  decide +kernel
+
 end
 end PdeVerif.Controller
